@@ -1,4 +1,5 @@
 import GqlVerif.Props.C10
+import GqlVerif.Proofs.C10Bij
 open GqlVerif.C10
 #print axioms roundtrip_all_strings
 #print axioms schema_value_own_variant
@@ -11,3 +12,11 @@ open GqlVerif.C10
 #print axioms ident_ne_other
 #print axioms declared_idents_nodup
 #print axioms ident_eq_unless_other
+-- the converse direction: deserialize ∘ serialize on the values of the type (Proofs/C10Bij.lean)
+#print axioms serialize_total
+#print axioms variant_roundtrip
+#print axioms other_roundtrip
+#print axioms deserialize_canonical
+#print axioms canonical_iff_image
+#print axioms string_value_bijection
+#print axioms handmade_other_collapses
